@@ -122,6 +122,8 @@ package pipeline
 //@ func stepFromMap
 //@   requires o != nil && ordered.wf(o)
 //@   assigns everything
+//@   frame-assumed nothing
+//@   note ASSUMED frame (C13): decoding a mapping into a step it has just created writes that step and objects it allocates, and reads the source; no object that existed before the call is modified (ordered.Unmarshal is reflection-driven and has no proved frame)
 //@   ensures [nonstring] old(hk(o, "type") && !typeis(typeVal(o), string)) ==> ret == nil && err != nil && !typeis(err, *warning.Warning)
 //@   ensures [t-command] old(hk(o, "type") && typeis(typeVal(o), string) && isCommandType(unbox(typeVal(o), string))) ==> usable(err) && (typeis(ret, *CommandStep) || typeis(ret, *UnknownStep))
 //@   ensures [t-wait]    old(hk(o, "type") && typeis(typeVal(o), string) && isWaitType(unbox(typeVal(o), string))) ==> usable(err) && (typeis(ret, *WaitStep) || typeis(ret, *UnknownStep))
@@ -143,6 +145,9 @@ package pipeline
 //@ func unmarshalStep
 //@   requires typeis(o, *ordered.Map[string,any]) ==> unbox(o, *ordered.Map[string,any]) != nil && ordered.wf(unbox(o, *ordered.Map[string,any]))
 //@   assigns everything
+//@   frame-assumed nothing
+//@   note ASSUMED frame (C13): see stepFromMap
+//@   ensures [fallback-warned] typeis(ret, *UnknownStep) ==> err != nil
 //@   ensures [nonnil] usable(err) ==> ret != nil
 //@   ensures [scalar-wait]  typeis(o, string) && isWaitType(unbox(o, string)) ==> err == nil && typeis(ret, *WaitStep)
 //@   ensures [scalar-input] typeis(o, string) && isInputType(unbox(o, string)) ==> err == nil && typeis(ret, *InputStep)
@@ -632,3 +637,77 @@ package pipeline
 //@ func (*UnknownStep).MarshalJSON
 //@   requires u != nil
 //@   assigns nothing
+
+// ---- C13: parsing keeps one step per entry; fallbacks are reported; no panics ----
+// (ordered.Unmarshal itself is reflection-driven: calls to it forget the heap.)
+
+// a warning proper (a typed-nil *Warning is not one)
+//@ define usableW(e) := e == nil || (typeis(e, *warning.Warning) && unbox(e, *warning.Warning) != nil)
+//@ define mapsWF(sl) := forall i int :: {sl[i]} 0 <= i && i < len(sl) && typeis(sl[i], *ordered.Map[string,any]) ==>
+//@     unbox(sl[i], *ordered.Map[string,any]) != nil && ordered.wf(unbox(sl[i], *ordered.Map[string,any]))
+
+// One non-nil step is appended per entry of the input sequence (never fewer,
+// even when a step is malformed: it becomes an UnknownStep), existing steps are
+// kept, and a result without a warning contains no fallback step.
+//@ func (*Steps).UnmarshalOrdered
+//@   requires s != nil && (typeis(o, []any) ==> mapsWF(unbox(o, []any)))
+//@   assigns *s, (*s)[..], any(*warning.Warning).message
+//@   ensures [null] o == nil ==> ret == nil && *s != nil && len(*s) == old(len(*s))
+//@   ensures [badtype] o != nil && !typeis(o, []any) ==> ret != nil && !typeis(ret, *warning.Warning)
+//@   ensures [count] typeis(o, []any) && usableW(ret) ==> len(*s) == old(len(*s)) + len(unbox(o, []any))
+//@   ensures [nonnil] typeis(o, []any) && usableW(ret) ==> (forall i int :: {(*s)[i]} old(len(*s)) <= i && i < len(*s) ==> (*s)[i] != nil)
+//@   ensures [kept] forall i int :: {(*s)[i]} 0 <= i && i < old(len(*s)) ==> (*s)[i] == old((*s)[i])
+//@   ensures [warned] typeis(o, []any) && ret == nil ==> (forall i int :: {(*s)[i]} old(len(*s)) <= i && i < len(*s) ==> !typeis((*s)[i], *UnknownStep))
+//@   loop 0
+//@     assigns *s, (*s)[..], warns[..], any(*warning.Warning).message
+//@     invariant [idx] 0 <= $idx && $idx <= len(sl) && len(*s) == old(len(*s)) + $idx && (arr(*s) == atloop(arr(*s)) || loopfresh(*s))
+//@     invariant [warns] fresh(warns) && (arr(warns) == atloop(arr(warns)) || loopfresh(warns))
+//@     invariant [nonnil] forall i int :: {(*s)[i]} old(len(*s)) <= i && i < len(*s) ==> (*s)[i] != nil
+//@     invariant [kept] forall i int :: {(*s)[i]} 0 <= i && i < old(len(*s)) ==> (*s)[i] == old((*s)[i])
+//@     invariant [warned] forall i int :: {(*s)[i]} old(len(*s)) <= i && i < len(*s) && typeis((*s)[i], *UnknownStep) ==> len(warns) > 0
+//@     decreases len(sl) - $idx
+
+// "Ensure Steps is never nil": a usable pipeline / group has a non-nil step list.
+//@ func (*Pipeline).UnmarshalOrdered
+//@   requires p != nil
+//@   assigns everything
+//@   ensures [steps-nonnil] usableW(ret) ==> p.Steps != nil
+//@ func (*GroupStep).UnmarshalOrdered
+//@   requires g != nil
+//@   assigns everything
+//@   ensures [steps-nonnil] ret == nil ==> g.Steps != nil
+
+// the other custom unmarshalers: no panic (nil map writes, nil dereferences,
+// failed type assertions, indexes) on any input
+//@ func (*CommandStep).UnmarshalOrdered
+//@   requires c != nil
+//@   assigns everything
+//@ func (*UnknownStep).UnmarshalOrdered
+//@   requires u != nil
+//@   assigns u.Contents
+//@   ensures [verbatim] ret == nil && u.Contents == src
+//@ func (*Cache).UnmarshalOrdered
+//@   requires c != nil
+//@   assigns everything
+//@ func (*Matrix).UnmarshalOrdered
+//@   requires m != nil
+//@   assigns everything
+//@ func (*MatrixAdjustmentWith).UnmarshalOrdered$1
+//@   requires maw != nil && *maw != nil
+//@   assigns **maw
+//@ func (*MatrixAdjustmentWith).UnmarshalOrdered
+//@   requires maw != nil && (typeis(o, *ordered.Map[string,any]) && unbox(o, *ordered.Map[string,any]) != nil ==> ordered.wf(unbox(o, *ordered.Map[string,any])))
+//@   assigns *maw, **maw
+//@   loop Range.0
+//@     assigns **maw
+//@     invariant [idx] 0 <= $idx && *maw != nil
+
+//@ func (*Plugins).UnmarshalOrdered
+//@   requires p != nil && (typeis(o, []any) ==> mapsWF(unbox(o, []any))) &&
+//@       (typeis(o, *ordered.Map[string,any]) && unbox(o, *ordered.Map[string,any]) != nil ==> ordered.wf(unbox(o, *ordered.Map[string,any])))
+//@   assigns everything
+//@   loop 0
+//@     invariant [idx] 0 <= $idx && $idx <= len(o)
+//@ func (*MatrixSetup).UnmarshalOrdered
+//@   requires ms != nil
+//@   assigns everything
